@@ -256,6 +256,10 @@ func (f *fields) get(name string) (value, bool) {
 }
 
 func (f *fields) dict() map[string]value {
+	if f == nil {
+		// the zero Config value has no field storage
+		return nil
+	}
 	return f.d
 }
 
@@ -273,6 +277,9 @@ func sortedKeys(d map[string]value) []string {
 }
 
 func (f *fields) array() []value {
+	if f == nil {
+		return nil
+	}
 	return f.a
 }
 
